@@ -21,7 +21,17 @@ fn check(ctx: &Ctx, c: char, bits: u32, k: &Classes) -> bool {
             return false;
         }
     };
-    let got = TOKENS.iter().find(|t| out == format!("^{t}$")).copied();
+    let mut got = TOKENS.iter().find(|t| out == format!("^{t}$")).copied();
+    if got != want {
+        // Not the usual spelling: decide by language, so that a mere change of notation is not an alarm.
+        // The property is about which class the scalar is rewritten to, i.e. about the set the pattern denotes.
+        if let Ok(h) = lang::parse(&out) {
+            let spec = crate::spec::spec(&tcs, &cfg, k);
+            if let Ok((None, _)) = lang::compare(&h, &spec, false) {
+                got = want;
+            }
+        }
+    }
     if got != want {
         let sig = format!("classification: grex={:?} regex-crate={:?}", got, want);
         crate::findings::report(ctx, viol("C09", "string", sig, &tcs, &cfg, &out, json!({"scalar": format!("U+{:04X}", c as u32), "expected_token": want, "actual_token": got})));
